@@ -423,11 +423,13 @@ impl Connack {
         let (props, consumed) = Properties::parse(&data[cursor..])?;
         cursor += consumed;
         validate_connack_properties(&props)?;
-        let prop_len = VariableByteInteger::from_u32(props.size() as u32).unwrap();
+        let prop_len =
+            VariableByteInteger::from_len(props.size()).map_err(|_| MqttError::MalformedPacket)?;
 
         let connack = Connack {
             fixed_header: [FixedHeader::Connack.as_u8()],
-            remaining_length: VariableByteInteger::from_u32(cursor as u32).unwrap(),
+            remaining_length: VariableByteInteger::from_len(cursor)
+                .map_err(|_| MqttError::MalformedPacket)?,
             ack_flags: [flags],
             reason_code_buf: [code],
             property_length: prop_len,
